@@ -37,6 +37,19 @@
 (*   TimeoutOverrideKeepsRetryDeadline  an explicit timeout= replaces the  *)
 (*                    call deadline only; the overall retry deadline is    *)
 (*                    part of the retry object (default or explicit).      *)
+(*   RestStatusMapping  over REST the server answers HTTP statuses and     *)
+(*                    api-core picks the exception class by HTTP status    *)
+(*                    alone; only for the codes in RestExact is that the   *)
+(*                    class the retry predicate of the table lists (for    *)
+(*                    the others it is a parent class, e.g. 504 ->         *)
+(*                    GatewayTimeout, never DeadlineExceeded).  REST fault *)
+(*                    scripts are drawn from RestExact.                    *)
+(*                                                                         *)
+(* The transport (grpc | rest) and whether the method's http rule has a    *)
+(* body are INPUT dimensions only: the property is the same for all of     *)
+(* them - every attempt carries RpcTimeoutAt(effective timeout, elapsed)   *)
+(* as the `timeout` of the channel call (gRPC) or of the HTTP session call *)
+(* (REST), None when there is no effective timeout.                        *)
 (***************************************************************************)
 EXTENDS Integers, Sequences, FiniteSets, TLC, SequencesExt, FiniteSetsExt, Json
 
@@ -44,12 +57,13 @@ CONSTANTS Scope,       \* which configs Init draws from: "table" | "sel_small" |
           TableLo, NTable,   \* "table": configs ConfigTab[TableLo..NTable]
           MaxLen,      \* longest server fault script
           RunCalls,    \* FALSE: resolution only (the behaviour ends once every method is loaded)
+          Transports,  \* subset of {"grpc", "rest"} the calls are made over
           FreeJitter,  \* TRUE: every sleep picks its own jitter; FALSE: one jitter per call (case emission)
           Mutant       \* "none" for the real design; the others are self-test mutants TLC must reject
 
-VARIABLES cid, cfg, stage, res, target, ovr, eff, script0, script, jit,
+VARIABLES cid, cfg, stage, res, target, transport, ovr, eff, script0, script, jit,
           attempt, now, bound, pc, fault, sleeps, rpcTimeouts, faults, outcome, refused
-vars == <<cid, cfg, stage, res, target, ovr, eff, script0, script, jit,
+vars == <<cid, cfg, stage, res, target, transport, ovr, eff, script0, script, jit,
           attempt, now, bound, pc, fault, sleeps, rpcTimeouts, faults, outcome, refused>>
 
 U == 512000
@@ -86,6 +100,12 @@ N(s, m) == [svc |-> s, meth |-> m]
 Selectors == <<N(RT, "Get"), N(RT, "BatchGet"), N(RT, "GetMore"), N(RT, "Put"), N(RT, "Drop"), N(RT, "Scan"),
                N(RT, "Poll"), N(RT, "Touch"), N(AD, "Get"), N(AD, "Put")>>
 SuffixPairs == {<<"Get", "BatchGet">>}          \* <<a, b>>: b ends with a (used by a mutant only)
+\* http rules of the carrier: these are bound with a request body (post, body "*"), the others without (get, delete)
+BodyMeths == {N(RT, "BatchGet"), N(RT, "Put"), N(RT, "Touch"), N(AD, "Put")}
+DeleteMeths == {N(RT, "Drop")}
+\* codes whose HTTP status api-core maps back to exactly the exception class of the code (RestStatusMapping)
+RestExact == {"CANCELLED", "NOT_FOUND", "UNIMPLEMENTED", "INTERNAL", "UNAVAILABLE"}
+SessionDefault == 120 * U                        \* what the HTTP session applies when no timeout is passed (mutant only)
 
 -----------------------------------------------------------------------------
 (* Abstract gRPC service config: a sequence of entries                     *)
@@ -265,6 +285,10 @@ RpcTimeoutAt(t, elapsed) ==
   ELSE LET el == IF elapsed < U \div 1000 THEN 0 ELSE elapsed
            rem == t - el
        IN IF rem < U THEN t ELSE rem                                                        \* ApiCoreFloor
+\* the `timeout` one attempt carries: keyword of the channel call (grpc) / of the HTTP session call (rest)
+AttemptTimeout ==
+  IF Mutant = "rest_no_body_no_timeout" /\ transport = "rest" /\ target \notin BodyMeths THEN SessionDefault
+  ELSE RpcTimeoutAt(eff.timeout, now)
 Retryable(c) == IF Mutant = "retry_all" THEN eff.retry.on ELSE eff.retry.on /\ c \in eff.retry.codes
 Expired(d) == /\ eff.retry.deadline # No
               /\ IF Mutant = "check_after_sleep" THEN now > eff.retry.deadline ELSE now + d > eff.retry.deadline
@@ -291,7 +315,7 @@ Scripts(pal) == SeqOf({pal.r1, pal.r2, pal.n}, MaxLen)
 
 -----------------------------------------------------------------------------
 Init == /\ \E p \in ConfigPairs : cid = p[1] /\ cfg = p[2]
-        /\ stage = "config" /\ res = <<>> /\ target = N("", "") /\ ovr = NoOvr
+        /\ stage = "config" /\ res = <<>> /\ target = N("", "") /\ transport = "grpc" /\ ovr = NoOvr
         /\ eff = [retry |-> NoRetry, timeout |-> No]
         /\ script0 = <<>> /\ script = <<>> /\ jit = <<1, 1>>
         /\ attempt = 0 /\ now = 0 /\ bound = 0 /\ pc = "idle" /\ fault = "" /\ sleeps = <<>> /\ rpcTimeouts = <<>>
@@ -303,11 +327,11 @@ callvars == <<attempt, now, bound, pc, fault, sleeps, rpcTimeouts, faults, outco
 LoadMethod == /\ stage = "config"
               /\ res' = Append(res, Resolve(cfg, Selectors[Len(res) + 1]))
               /\ stage' = IF Len(res') = Len(Selectors) THEN "loaded" ELSE "config"
-              /\ UNCHANGED <<cid, cfg, target, ovr, eff, script0, script, jit>> /\ UNCHANGED callvars
+              /\ UNCHANGED <<cid, cfg, target, transport, ovr, eff, script0, script, jit>> /\ UNCHANGED callvars
 
-Invoke(sel, o, s, j) ==
+Invoke(sel, tr, o, s, j) ==
   /\ stage = "loaded" /\ RunCalls
-  /\ target' = sel /\ ovr' = o /\ script0' = s /\ script' = s /\ jit' = j
+  /\ target' = sel /\ transport' = tr /\ ovr' = o /\ script0' = s /\ script' = s /\ jit' = j
   /\ eff' = Effective(res[SelIdx(sel)], o)
   /\ bound' = FirstBound(eff'.retry)
   /\ stage' = "calling"
@@ -315,38 +339,38 @@ Invoke(sel, o, s, j) ==
 
 Attempt == /\ stage = "calling" /\ pc = "idle"
            /\ attempt' = attempt + 1
-           /\ rpcTimeouts' = Append(rpcTimeouts, RpcTimeoutAt(eff.timeout, now))
+           /\ rpcTimeouts' = Append(rpcTimeouts, AttemptTimeout)
            /\ pc' = "inflight"
-           /\ UNCHANGED <<cid, cfg, stage, res, target, ovr, eff, script0, script, jit, now, bound, fault, sleeps,
+           /\ UNCHANGED <<cid, cfg, stage, res, target, transport, ovr, eff, script0, script, jit, now, bound, fault, sleeps,
                           faults, outcome, refused>>
 
 ServerOk == /\ stage = "calling" /\ pc = "inflight" /\ script = <<>>
             /\ pc' = "replied"
-            /\ UNCHANGED <<cid, cfg, stage, res, target, ovr, eff, script0, script, jit, attempt, now, bound, fault,
+            /\ UNCHANGED <<cid, cfg, stage, res, target, transport, ovr, eff, script0, script, jit, attempt, now, bound, fault,
                            sleeps, rpcTimeouts, faults, outcome, refused>>
 
 ServerFault == /\ stage = "calling" /\ pc = "inflight" /\ script # <<>>
                /\ fault' = Head(script) /\ script' = Tail(script) /\ faults' = Append(faults, Head(script))
                /\ pc' = "fault"
-               /\ UNCHANGED <<cid, cfg, stage, res, target, ovr, eff, script0, jit, attempt, now, bound, sleeps,
+               /\ UNCHANGED <<cid, cfg, stage, res, target, transport, ovr, eff, script0, jit, attempt, now, bound, sleeps,
                               rpcTimeouts, outcome, refused>>
 
 Finish(o) == /\ outcome' = o /\ stage' = "done" /\ pc' = "end"
 
 Return == /\ stage = "calling" /\ pc = "replied"
           /\ Finish("ok")
-          /\ UNCHANGED <<cid, cfg, res, target, ovr, eff, script0, script, jit, attempt, now, bound, fault, sleeps,
+          /\ UNCHANGED <<cid, cfg, res, target, transport, ovr, eff, script0, script, jit, attempt, now, bound, fault, sleeps,
                          rpcTimeouts, faults, refused>>
 
 Surface == /\ stage = "calling" /\ pc = "fault" /\ ~Retryable(fault)
            /\ Finish(fault)
-           /\ UNCHANGED <<cid, cfg, res, target, ovr, eff, script0, script, jit, attempt, now, bound, fault, sleeps,
+           /\ UNCHANGED <<cid, cfg, res, target, transport, ovr, eff, script0, script, jit, attempt, now, bound, fault, sleeps,
                           rpcTimeouts, faults, refused>>
 
 GiveUp(d) == /\ stage = "calling" /\ pc = "fault" /\ Retryable(fault)
              /\ d \in 0..bound /\ Expired(d)
              /\ Finish("RetryError") /\ refused' = d
-             /\ UNCHANGED <<cid, cfg, res, target, ovr, eff, script0, script, jit, attempt, now, bound, fault, sleeps,
+             /\ UNCHANGED <<cid, cfg, res, target, transport, ovr, eff, script0, script, jit, attempt, now, bound, fault, sleeps,
                             rpcTimeouts, faults>>
 
 Backoff(d) == /\ stage = "calling" /\ pc = "fault" /\ Retryable(fault)
@@ -355,7 +379,7 @@ Backoff(d) == /\ stage = "calling" /\ pc = "fault" /\ Retryable(fault)
               /\ now' = now + d
               /\ bound' = NextBound(bound, eff.retry)
               /\ pc' = "idle"
-              /\ UNCHANGED <<cid, cfg, stage, res, target, ovr, eff, script0, script, jit, attempt, fault,
+              /\ UNCHANGED <<cid, cfg, stage, res, target, transport, ovr, eff, script0, script, jit, attempt, fault,
                              rpcTimeouts, faults, outcome, refused>>
 
 JitterNow == IF FreeJitter THEN Jitter ELSE {jit}
@@ -366,7 +390,9 @@ InvokeAny ==
        LET pal == Pal(cfg, res[k]) IN
        \E o \in Overrides(pal), s \in Scripts(pal) :
          \E j \in (IF ~FreeJitter /\ FirstRetryable(Effective(res[k], o), s) THEN Jitter ELSE {<<1, 1>>}) :
-           Invoke(Selectors[k], o, s, j)
+           \E tr \in Transports :
+             /\ tr = "rest" => Range(s) \subseteq RestExact
+             /\ Invoke(Selectors[k], tr, o, s, j)
 
 Next == \/ LoadMethod \/ InvokeAny \/ Attempt \/ ServerOk \/ ServerFault \/ Return \/ Surface
         \/ \E phi \in JitterNow : GiveUp(Scale(bound, phi)) \/ Backoff(Scale(bound, phi))
@@ -452,6 +478,8 @@ Inv_Override ==
 Inv_Counts == Calling => /\ Len(sleeps) \in {attempt - 1, attempt} \/ attempt = 0
                          /\ now = Elapsed(Len(sleeps) + 1)
                          /\ stage = "done" => attempt = Len(sleeps) + 1
+\* REST calls only see faults api-core maps to the class of the code
+Inv_RestDomain == (Calling /\ transport = "rest") => Range(faults) \subseteq RestExact
 Inv_Exact == Calling /\ eff.retry.on => (bound * eff.retry.mult[1]) % eff.retry.mult[2] = 0
 Live == <>Terminal
 
@@ -460,8 +488,9 @@ Live == <>Terminal
 EmitResolve == (stage = "loaded" /\ ~RunCalls) =>
                  PrintT(<<"CASE", ToJson([kind |-> "resolve", cid |-> cid, cfg |-> cfg, resolved |-> res])>>)
 ASSUME PrintT(<<"SELECTORS", ToJson(Selectors)>>)       \* the method order `resolved` refers to
+ASSUME PrintT(<<"HTTPRULES", ToJson([body |-> BodyMeths, delete |-> DeleteMeths])>>)
 EmitRun == (stage = "done") =>
-             PrintT(<<"CASE", ToJson([kind |-> "run", cid |-> cid, sel |-> target, ovr |-> ovr, script |-> script0,
+             PrintT(<<"CASE", ToJson([kind |-> "run", cid |-> cid, sel |-> target, transport |-> transport, ovr |-> ovr, script |-> script0,
                                       jit |-> jit, pal |-> Pal(cfg, res[SelIdx(target)]),
                                       expect |-> [attempts |-> attempt, rpcTimeouts |-> rpcTimeouts,
                                                   sleeps |-> sleeps, faults |-> faults, outcome |-> outcome,
